@@ -383,7 +383,10 @@ func (m *matcher) findMatches(known *knownValue) {
 			for i, tok := range m.unknown.Tokens {
 				if tok.Offset == a[0] {
 					start = i
-				} else if tok.Offset >= a[len(a)-1]-len(tok.Text) {
+				}
+				// The occurrence ends with the first token that reaches its end;
+				// for a one-token occurrence that is the token it starts with.
+				if tok.Offset >= a[len(a)-1]-len(tok.Text) {
 					end = i
 					break
 				}
